@@ -33,3 +33,13 @@ Theorem C09_time_abstraction : waits_director = (@nil Z).
 Proof. exact w_director. Qed.
 Check C09_time_abstraction : waits_director = (@nil Z).
 Print Assumptions C09_time_abstraction.
+
+(* signals that queue up in bursts of any size g are processed one by one: regrouping the outputs per burst
+   (what an observer sees who lets the director run only after each burst) loses and reorders nothing *)
+Require Import GV.Model.C09_io GV.Proofs.C09_burst.
+Theorem C09_bursts : forall g h,
+  (0 < g)%nat -> concat (regroup (length h) g (c09_model h)) = concat (c09_model h).
+Proof. exact burst_preserves_commands. Qed.
+Check C09_bursts : forall g h,
+  (0 < g)%nat -> concat (regroup (length h) g (c09_model h)) = concat (c09_model h).
+Print Assumptions C09_bursts.
